@@ -318,6 +318,31 @@ def norm_case(ctx, alg, iso, cfg, name):
     E, sq, rotated = out
     nsq = R.normsq(E)
     nsq = {k: v for k, v in nsq.items() if v != 0}
+    if not nsq:
+        # a null element: normsq(x) = 0, so norm(x) is the number whose square that is
+        kd0 = iso.from_ref(E)
+        keys0 = tuple(kd0)
+        vals0 = [float(kd0[k]) for k in keys0]
+        x0 = gen.mv_from(alg, keys0, vals0)
+        cid0 = [name, 'norm-null', {alg.bin2canon[k]: v for k, v in zip(keys0, vals0)}]
+        if not ctx.want(cid0):
+            return
+        stq, q0 = ctx.guarded(TO, lambda: x0.normsq())
+        stn, n0 = ctx.guarded(TO, lambda: x0.norm())
+        if stq != 'ok' or stn == 'timeout':
+            return
+        ctx.count('norm_of_null_elements')
+        ctx.case(cid0)
+        wit0 = dict(config=cfg, operand={alg.bin2canon[k]: v for k, v in zip(keys0, vals0)}, normsq=show_elem(mv_dict(q0)) if hasattr(q0, 'keys') else repr(q0))
+        if stn == 'exc':
+            ctx.note_raised(n0, 'norm-null')
+            ctx.violation('norm() raises although normsq() returns (norm squared is normsq has no left-hand side)', cid0 + ['raises'],
+                          error=f'{type(n0).__name__}: {str(n0)[:120]}', exc_type=type(n0).__name__, **wit0)
+            return
+        nd = mv_dict(n0) if hasattr(n0, 'keys') else {0: n0}
+        if elem_diff(nd, {}, tol=1e-12):
+            ctx.violation('norm() of a null element is not 0', cid0 + ['value'], norm=show_elem(nd), **wit0)
+        return
     if set(nsq) - {0} or not nsq.get(0):
         return
     scale = rng.choice((0.5, 2.0, -1.5, 3.0))
